@@ -112,7 +112,7 @@ static void c13_iteration(long i) {
   while (off < n && guard++ < 4096) {
     struct cbor_decoder_result d;
     vh_ev_clear();
-    OP("stream_decode", 1, d = cbor_stream_decode(buf + off, n - off, &vh_recording_callbacks, NULL));
+    OP("stream_decode", 1, d = cbor_stream_decode(buf + off, n - off, &vh_recording_callbacks, VH_CTX));
     if (d.status != CBOR_DECODER_FINISHED) break;
     off += d.read;
   }
